@@ -56,7 +56,10 @@ impl MarkerString {
 
             if regex.contains(marker.format().as_str()) {
                 regex = regex.replace(marker.format().as_str(), marker_regex.as_str());
-                capture = capture.replace(marker.format().as_str(), marker_capture.as_str());
+                // A group name can only be used once: a marker used several times takes its value from the first place
+                capture = capture
+                    .replacen(marker.format().as_str(), marker_capture.as_str(), 1)
+                    .replace(marker.format().as_str(), marker_regex.as_str());
                 marker_map.insert(marker.name.clone(), marker_capture);
             }
         }
